@@ -170,9 +170,66 @@ func checkC04() fw.Check {
 					}
 				}
 			}
+			// request level: the end-to-end RTT is the RTT of the hop MARKED as the destination. The target's address
+			// answering without proof of arrival (a time-exceeded sent by the target itself for an ICMP or SYN probe, as
+			// from a host that also routes) gives a hop under the target's address that is not the destination: the
+			// end-to-end sample stays 0, no hop carries the mark
+			for _, proto := range []string{"icmp", "tcp"} {
+				proto := proto
+				id := "C04/e2e-te-from-target/" + proto
+				cases = append(cases, fw.Case{ID: id, Bubble: true, Run: func(c *fw.Ctx) { runC04E2eTEFromTarget(c, id, proto) }})
+			}
 			return cases
 		},
 	}
+}
+
+func runC04E2eTEFromTarget(c *fw.Ctx, id, proto string) {
+	resetProcessState()
+	v := map[string]refmatch.Variant{"icmp": refmatch.VariantByName("icmp4"), "tcp": refmatch.VariantByName("syn")}[proto]
+	target := drive.TargetFor(v, 70+c.Worker)
+	params := traceroute.TracerouteParams{Hostname: target.String(), Port: 443, Protocol: proto, MinTTL: 1, MaxTTL: 4, Delay: 5, Timeout: 200 * time.Millisecond,
+		TCPMethod: traceroute.TCPConfigSYN, TracerouteQueries: 1, E2eQueries: 3}
+	env, err := newReqEnv(c, params, target, 443, false)
+	if err != nil {
+		c.Inconclusive(err.Error())
+		return
+	}
+	defer env.close()
+	env.modelFor = func(k int, e *simEnv) *pathModel {
+		m := flowPath(k, e, 0, false, 2*time.Millisecond) // routers at every TTL, the destination never proves arrival
+		// ... and the last TTL is answered with a time-exceeded from the target's own address
+		m.hops[int(e.spec.MaxTTL)] = &hopSpec{addr: target, delay: 12 * time.Millisecond}
+		return m
+	}
+	out, rerr := env.run(context.Background())
+	env.monitors(id)
+	if rerr != nil || out == nil {
+		c.Violate("C04", "request-failed/e2e-te-from-target", fmt.Sprintf("%s: %v", id, rerr), nil)
+		return
+	}
+	c.Nontrivial("e2e-te-from-target/" + proto)
+	for _, run := range out.Traceroute.Runs {
+		sawTarget := false
+		for _, h := range run.Hops {
+			if hopIP(h.IPAddress) == target {
+				sawTarget = true
+			}
+			if h.IsDest {
+				c.Violate("C04", "dest-mark/"+v.Name+"/e2e-te-from-target/gottrue", fmt.Sprintf("%s: ttl %d (%v) is marked as the destination; the target only sent a time-exceeded", id, h.TTL, h.IPAddress), fmtHops(&run))
+			}
+		}
+		if !sawTarget {
+			c.Inconclusive(id + ": the time-exceeded from the target's address did not become a hop")
+		}
+	}
+	for i, r := range out.E2eProbe.RTTs {
+		if r != 0 {
+			c.Violate("C04", "e2e-rtt-without-destination/"+proto, fmt.Sprintf("%s: end-to-end sample %d is %v ms although no reply proving arrival came from the target (only a time-exceeded sent from its address): rtts=%v", id, i, r, out.E2eProbe.RTTs), nil)
+			break
+		}
+	}
+	c.Count("e2e_samples_checked", len(out.E2eProbe.RTTs))
 }
 
 // simplePathWin: routers at every TTL of the window below dist, destination at dist (if reach).
@@ -463,6 +520,9 @@ func checkC06() fw.Check {
 								// listening timeout far below the send delay (30 ms / 250 ms) with silent hops: the next probe may
 								// only leave a full send delay after the previous one, however early the wait for a reply ended
 								{"short-timeout", 0, nil, false},
+								// a router on a second path answers the destination's TTL first (time-exceeded), the destination's
+								// own reply for that TTL comes later and replaces it: that reply, too, ends the sending
+								{"dest-after-router-same-ttl", mid, func(s drive.Spec) time.Duration { return s.Delay + s.Delay/2 }, false},
 							}
 							if n > 100 && tier != "thorough" {
 								classes = classes[:2]
@@ -501,6 +561,14 @@ func checkC06() fw.Check {
 										for t := w.first; t <= w.last && (dc.dist == 0 || t < dc.dist); t++ {
 											if t%3 != 0 {
 												m.hops[t] = &hopSpec{addr: routerAddr(v.V6, 1, t), delay: time.Duration(5+t%50) * time.Millisecond}
+											}
+										}
+										if dc.name == "dest-after-router-same-ttl" && !v.Serial {
+											m.extra = func(e *simEnv, p *refmatch.Probe) {
+												if p.TTL == dc.dist {
+													e.inject(gen.WrapError(routerAddr(v.V6, 2, p.TTL), e.local, gen.TimeExceeded, 0, gen.QuoteBytes(p, 1, "fix"), "min", nil, 0),
+														"early-router-same-ttl", p, oddUS(3*time.Millisecond))
+												}
 											}
 										}
 										if dc.stall {
